@@ -707,8 +707,23 @@ func degenerateMesh(c choice.Chooser, topo modeling.Topology) (modeling.Mesh, st
 	}
 }
 
-// baseMesh draws a starting mesh.
+// baseMesh draws a starting mesh. Every other triangle mesh carries a
+// material: Append concatenates material lists too, and a list is one more
+// slice with spare capacity that two results can come to share (seeded change
+// C01-a2 needs three appends of material-bearing meshes in a row).
 func baseMesh(c choice.Chooser) (modeling.Mesh, string) {
+	m, l := baseMeshBare(c)
+	if m.Topology() == modeling.TriangleTopology && len(m.Materials()) == 0 && choice.Bool(c, "base:give-material") {
+		mat := modeling.DefaultMaterial()
+		if choice.Bool(c, "base:named-material") {
+			mat.Name = "second"
+		}
+		m, l = m.SetMaterial(mat), l+"+material"
+	}
+	return m, l
+}
+
+func baseMeshBare(c choice.Chooser) (modeling.Mesh, string) {
 	switch c.Intn("base:kind", 9) {
 	case 8:
 		return degenerateMesh(c, []modeling.Topology{modeling.TriangleTopology, modeling.TriangleTopology, modeling.PointTopology, modeling.LineStripTopology}[c.Intn("base:degen-topo", 4)])
